@@ -12,6 +12,13 @@ CLAIMED = {
          "contract-based deductive verification: WP over go/ssa + SMT (govc), bit-vector/floating-point mode", "DESIGN.md 3 C20"),
 }
 
+CLAIMED["C14"] = ("Unbounded proof that the event queue (ring buffer) refines an abstract FIFO sequence for every capacity and every head/tail position: push appends or, when full, drops exactly the oldest entry and reports exactly that entry; pop removes the front; len is the abstract length; frame conditions included. Obligations generated from go/ssa of the real functions.",
+  "Trusted: sync.Mutex atomicity (Lock/Unlock are no-ops in the sequential VC), go/ssa, SMT solvers. Dispatch order / deferred events / goroutine interleavings: see clauses_not_decided in the evidence.",
+  "contract-based deductive verification: WP over go/ssa + SMT (govc)", "DESIGN.md 3 C14")
+CLAIMED["C19"] = ("Unbounded proof (bytes as 8-bit vectors, ids up to 2^32-1, any length) that crypto.Bitfield behaves as a set: Add updates membership pointwise for all ids and keeps len == popcount of the data (recursive spec function with machine-checked induction lemmas), Contains/Len/index/id agree with the abstract set.",
+  "Trusted: go/ssa, SMT solvers, slice capacity <= 2^48 (gc runtime maxAlloc). Iteration order and Multi signer lists: see clauses_not_decided in the evidence.",
+  "contract-based deductive verification: WP over go/ssa + SMT (govc), byte bit-vector mode", "DESIGN.md 3 C19")
+
 NA = {
  "C01": "cross-replica agreement over all schedules and Byzantine behaviours is a protocol-level inductive invariant over a distributed history; no contract on a function or object of one process can state it (DESIGN.md 3 C01)",
  "C05": "liveness / bounded progress under eventual synchrony is a property of whole executions of all replicas; partial-correctness contracts cannot state it (DESIGN.md 3 C05)",
